@@ -1,0 +1,25 @@
+//go:build verif
+
+// Verification hooks (harness/cmd/trc of /verif): read-only access to the unexported helpers
+// whose results are the facts of the TRC decision logic.  Compiled only with -tags verif.
+
+package cppki
+
+import (
+	"crypto/x509"
+	"crypto/x509/pkix"
+
+	"github.com/scionproto/scion/pkg/addr"
+	"github.com/scionproto/scion/pkg/scrypto/cms/protocol"
+)
+
+// VerifFindIA exposes findIA: (nil, nil) = no ISD-AS attribute in the name.
+func VerifFindIA(dn pkix.Name) (*addr.IA, error) { return findIA(dn) }
+
+// VerifEqualName exposes equalName (the name equivalence used by TRC validation).
+func VerifEqualName(a, b pkix.Name) bool { return equalName(a, b) }
+
+// VerifVerifySignerInfo exposes SignedTRC.verifySignerInfo.
+func (s *SignedTRC) VerifVerifySignerInfo(cert *x509.Certificate, si protocol.SignerInfo) error {
+	return s.verifySignerInfo(cert, si)
+}
